@@ -82,6 +82,13 @@ def _item(i=1, rich=True):
     )
 
 
+def _rnode(depth):
+    node = mc.RNode(value=depth)
+    for i in range(depth - 1, 0, -1):
+        node = mc.RNode(value=i, child=node)
+    return node
+
+
 # name -> (factory, class key)
 OBJS = {
     "item_rich": (lambda: _item(1), "m_basic.Item"),
@@ -186,6 +193,8 @@ OBJS = {
     "either_b": (lambda: mc.EitherWay(pick=mc.Bravo(b="q", num=4), label="lb"), "m_compound.EitherWay"),
     "seq": (lambda: mc.Seq(a=[1, 2, 3], b=["x", "y"], tail="z"), "m_compound.Seq"),
     "wrapped": (lambda: mc.Wrapped(nums=[1, 2], alphas=[mc.Alpha(a=1), mc.Alpha(text="t")]), "m_compound.Wrapped"),
+    "rnode_deep": (lambda: _rnode(14), "m_compound.RNode"),
+    "rnode_other": (lambda: mc.RNode(value=1, child=mc.RNode(value=2, child=mc.ROther(label="end"))), "m_compound.RNode"),
     "fwd": (lambda: mc.Fwd(nxt=mc.FwdTarget(v=3)), "m_compound.Fwd"),
     "bird": (lambda: l1.Bird(name="tweety", wingspan=0.25), "m_late1.Bird"),
     "zoo_bird": (lambda: mx.Zoo(star=l1.Bird(name="late", wingspan=1.0), animal=[l1.Bird(name="b2")]), "m_xsi.Zoo"),
